@@ -360,16 +360,17 @@ def run(tier):
         fams = [("RefUQuick", 2, ("plain", "opt", "path"), True, True),
                 ("RefUSix", 3, ("plain",), True, False),
                 ("RefUWide", 2, ("plain", "opt"), False, True),
-                ("RefUWide", 3, ("path",), False, False),
+                ("RefUWide12", 3, ("path",), False, False),
                 ("RefUQuote", 3, ("plain", "opt"), False, False),
                 ("RefUQuote", 2, ("plain",), True, False),
                 ("RefUContents", 2, ("plain",), True, False),
                 ("RefUContents", 2, ("opt", "path"), False, False),
                 ("RefUPaths", 2, ("plain",), True, False),
                 ("RefUPaths", 2, ("path",), False, False),
-                ("RefUQuick", 2, ("plain",), True, False, ("variable", "override")),
-                ("RefUThree", 3, ("plain", "path"), False, False, ("variable",)),
-                ("RefUStdout", 2, ("plain", "opt", "path"), True, False),
+                ("RefUQuick", 2, ("plain",), True, False, ("variable",)),
+                ("RefUQuick", 2, ("plain", "opt"), False, False, ("override",)),
+                ("RefUThree", 3, ("plain",), False, False, ("variable",)),
+                ("RefUStdout", 2, ("plain", "opt"), True, False),
                 ("RefUStdout", 2, ("plain",), False, False, ("variable", "override"))]
     runner = Runner(chk)
     total = 0
@@ -381,13 +382,9 @@ def run(tier):
         c1 = _cfg(os.path.join(gen, "Subst_mc_%s_%d.cfg" % (tier, k)),
                   family_cfg(refu, maxrefs, styles, full, faults, True, vias) + "SPECIFICATION Spec\n" + inv +
                   "INVARIANT EmitCase\nCHECK_DEADLOCK FALSE\n")
-        res = tlc.run_tlc("Subst", c1, timeout=1500, coverage=True, workers=1)
+        res = tlc.run_tlc("Subst", c1, timeout=1500, workers=1)
         if not res["ok"]:
             raise MachineryError("Subst.tla: %s fails on the model:\n%s" % (res["violated"], res["out"][-2500:]))
-        need = ["Declare", "Resolve"] + (["DeclareUnused", "ResolveUndeclared"] if faults else [])
-        for a in need:
-            if not res["coverage"].get(a):
-                raise MachineryError("action %s of Subst.tla never taken (vacuous run): %s" % (a, res["coverage"]))
         chk.add_tlc(res)
         if k == 0:
             # the named deviation: TLC must exhibit an input on which one-replace-per-reference differs (expected violation)
@@ -401,6 +398,15 @@ def run(tier):
         if not uni or len(cases) < 50:
             raise MachineryError("TLC emitted %d cases for family %d" % (len(cases), k))
         universe = uni[0]["refs"]
+        # vacuity guard: every action of the spec was taken (a resolved state exists only after Declare and Resolve; the
+        # fault actions leave their mark in the emitted case), for every way of declaring that the family asks for
+        taken = {"Resolve": any(c["fault"] == "none" for c in cases),
+                 "DeclareUnused": any(c["fault"] == "unused" for c in cases) or not faults,
+                 "ResolveUndeclared": any(c["fault"] == "undeclared" for c in cases) or not faults}
+        for v in vias:
+            taken["Resolve via " + v] = any(c.get("via") == v for c in cases)
+        if not all(taken.values()):
+            raise MachineryError("family %d: actions of Subst.tla never taken (vacuous run): %s" % (k, taken))
         # a family that varies the NAMES must contain inputs that tell sequential replacement from exact substitution
         if refu not in ("RefUContents", "RefUStdout") and not any(c["sequential"] != c["expected"] for c in cases):
             raise MachineryError("family %d has no input on which sequential replacement differs from exact substitution "
